@@ -118,6 +118,8 @@ mod test;
 pub mod map;
 pub mod set;
 pub mod trieview;
+#[cfg(feature = "verif-hooks")]
+pub mod verif;
 
 pub use map::PrefixMap;
 pub use prefix::Prefix;
